@@ -87,27 +87,60 @@ func c02Orders(n int) [][]int {
 	return append(out, rev)
 }
 
-func c02Bindings(n int, order []int) map[string]any {
-	key := func(i int) string { return fmt.Sprintf("k%d", i+1) }
-	m := map[string]any{}
+// Key styles: the canonical order of a map must not depend on iteration order whatever the keys look like.
+//
+//	0: k1..kn
+//	1: strings that look like numbers mixed with strings that do not, empty, blank, signs, non-ASCII
+//	2: keys of mixed Go types in a map[any]any (ints of several widths, floats, bools, strings)
+const c02KeyStyles = 3
+
+var c02TrickyKeys = []string{"10", "9", "2xx", "404", "1000", "a", "B", "", "1e3", "-1", "01", "k", " ", "é", "A", "b", "00", "2",
+	"x2", "0x1f", "1_0", "٣", "10 ", "+5", "5.0", "NaN", "b2"}
+
+var c02MixedKeys = []any{1, "1", 2.5, true, "a", int8(3), uint(4), "10", 10, false, int64(-1), "B", 0, "", float32(0.5), uint8(7), "b",
+	100, "2", 2, "true", int16(9), 1000, "k", uint64(12), -7, "é"}
+
+func c02Bindings(n int, order []int) map[string]any { return c02BindingsK(n, order, 0) }
+
+func c02BindingsK(n int, order []int, style int) map[string]any {
+	skey := func(i int) string {
+		if style == 0 {
+			return fmt.Sprintf("k%d", i+1)
+		}
+		return c02TrickyKeys[i]
+	}
+	akey := func(i int) any {
+		if style == 2 {
+			return c02MixedKeys[i]
+		}
+		return skey(i)
+	}
+	var m any
+	ms0 := map[string]any{}
+	ma0 := map[any]any{}
 	mi := map[string]int{}
 	km := map[string]any{}
 	inner := map[string]any{}
 	var ms yaml.MapSlice
 	for _, i := range order {
-		m[key(i)] = i + 1
-		mi[key(i)] = i + 1
-		km[key(i)] = i + 1
-		inner[key(i)] = i + 1
+		ms0[skey(i)] = i + 1
+		ma0[akey(i)] = i + 1
+		mi[skey(i)] = i + 1
+		km[skey(i)] = i + 1
+		inner[skey(i)] = i + 1
+	}
+	m = ms0
+	if style == 2 {
+		m = ma0
 	}
 	for i := 0; i < n; i++ {
-		ms = append(ms, yaml.MapItem{Key: key(i), Value: i + 1})
+		ms = append(ms, yaml.MapItem{Key: akey(i), Value: i + 1})
 	}
 	arr := []any{}
 	for j := 0; j < 2; j++ {
 		x := map[string]any{}
 		for _, i := range order {
-			x[key(i)] = j
+			x[skey(i)] = j
 		}
 		arr = append(arr, x)
 	}
@@ -371,12 +404,15 @@ func c02Families(tier string) []explore.Family {
 	type mcase struct {
 		t, n  int
 		order []int
+		style int
 	}
 	var cases []mcase
 	for t := range c02MapTemplates {
 		for _, n := range sizes {
 			for _, o := range c02Orders(n) {
-				cases = append(cases, mcase{t, n, o})
+				for st := 0; st < c02KeyStyles; st++ {
+					cases = append(cases, mcase{t, n, o, st})
+				}
 			}
 		}
 	}
@@ -401,7 +437,7 @@ func c02Families(tier string) []explore.Family {
 		mapSeamBegin(nil)
 		var o Outcome
 		o.Panic = explore.Safe(func() {
-			out, err := tpl.Render(c02Bindings(c.n, id))
+			out, err := tpl.Render(c02BindingsK(c.n, id, c.style))
 			o.Out, o.Err = string(out), err
 		})
 		mapSeamEnd()
@@ -413,10 +449,10 @@ func c02Families(tier string) []explore.Family {
 		if c.n > 12 {
 			b = 1 // 4-8 buckets x 8 offsets per choice point
 		}
-		execs := c02Explore(r, tpl, func() map[string]any { return c02Bindings(c.n, c.order) }, base, b, func(choices []int) any {
-			return map[string]any{"template": src, "map_entries": c.n, "insertion_order": c.order, "iteration_start_choices": choices}
+		execs := c02Explore(r, tpl, func() map[string]any { return c02BindingsK(c.n, c.order, c.style) }, base, b, func(choices []int) any {
+			return map[string]any{"template": src, "map_entries": c.n, "insertion_order": c.order, "key_style": c.style, "iteration_start_choices": choices}
 		})
-		r.Class(fmt.Sprintf("t%d/n%d/%s", c.t, c.n, o.Class()))
+		r.Class(fmt.Sprintf("t%d/n%d/k%d/%s", c.t, c.n, c.style, o.Class()))
 		r.Count("map_order_executions", int64(execs))
 		if r.WantSample() {
 			r.Sample(map[string]any{"template": src, "map_entries": c.n, "insertion_order": c.order, "executions": execs, "outcome": trunc80(base)})
